@@ -53,6 +53,20 @@ RULE = ("uniformity: N particles on a stratified grid over [0,H], 1..3 steps wit
         "Z/H uniform on 10 bins (binomial bound, same budget), < 3 particles within 1e-11 column depths of surface or bed "
         "(false alarm < 1e-16; not sedimentation, which sinks). Mine: variance 2*K*dt (chi-square bound) of the last update "
         "of such a history over 2000..7500 m terraces, land_collision absent / reposition / freeze, with / without `active`. "
+        "Behavioural states (every run): salmon lice - N interior lice (depth 10 m +- up to 6 m, step standard deviation <= "
+        "0.78 m, dt 60..3600 float / int, vertical_mixing 5e-5..5e-3 or omitted = default), half nauplii (age 0..35) half "
+        "copepodids (45..160), in four water masses side by side with surface salinities from 3..35 (first experiment: 12 / "
+        "25 / 31 / 35, at night) and temperatures 4..14, optional haline stratification 0.2 / 0.5 per m and thermal -0.1 per m, "
+        "timestamps night / day / twilight at 60 / 70 N, 1..2 updates of one instance (last observed), stub or real State; "
+        "groups (stage, salinity below / inside / above the stage's tolerance band, avoiding or not by the recorded "
+        "tolerance draw, lit or dark with margin) of >= 2000 lice: sample variance of the displacement against 2*K*dt (exact "
+        "chi-square bound). Egg - three water masses (temp 2..14, salt 30..35, uniform in depth), egg_buoy = local salinity "
+        "+ {0, +-0.2, +-1, +-3} (neutral / sinking / rising), egg_diam 0.5..3 mm (Stokes / Dallavalle), dt 60..3600, K "
+        "1e-4..1e-2, eggs round 100 m of the 200 m column; per (water mass, buoyancy) group. Shrimp - five stages with "
+        "their own mixing coefficient (K0 x 1..16, shuffled) and swimming speed 0..0.03 m/s, day / night ranges of preferred "
+        "depth, larvae further than dt*speed + 9.5 sigma above resp. below both ranges (swim down / up the full step), depth "
+        "quantile given or drawn by the module, stage 0 (uninitialised) included, any timestamp; per (stage, side) group. "
+        "Mine - vertical_advection on with a constant vertical current +-1e-4..5e-3 m/s, statuses 1 / 2 / no `active`. "
         "Non-trivial: every statistical experiment; distinct by (module, parameters).")
 ASSUMPTIONS = ["np.random.rand / randn / normal are uniform / standard normal (numpy legacy generator, trusted)",
                "measure-theoretic step 'piecewise isometry with constant preimage count => uniform law invariant' is cited, not formalised"]
@@ -293,7 +307,8 @@ def chi2_variance_ok(ctx, label, disp, expected, site, params):
     """displacements that are normal with variance `expected` (all modules here draw randn / normal): (n-1) s^2 /
     expected is chi-square with n-1 degrees of freedom EXACTLY, so the two-sided test at level ALPHA_TOTAL / MAX_TESTS
     has an exact false-alarm probability; it shares the Bonferroni budget of the binomial tests (the run makes far
-    fewer than MAX_TESTS statistical tests: about 2100 in the thorough tier, transport histories included)."""
+    fewer than MAX_TESTS statistical tests: about 2100 in the thorough tier, transport histories included; the
+    behavioural-state experiments add about 100 (quick) / 300 (thorough))."""
     from scipy.stats import chi2
     n = len(disp)
     var = float(np.var(disp, ddof=1))
@@ -1390,6 +1405,353 @@ def transport_histories(ctx):
         mine_transport_variance(ctx, rep)
 
 
+# =====================================================================================================================
+# Behavioural states of the "velocity + mixing" modules (salmon lice, egg, shrimp; mine with vertical advection)
+#
+# These modules add the random-walk term to a DETERMINISTIC vertical velocity that depends on the particle's state
+# and on the water it is in: lice swim down in too fresh water (nauplii below 32 - 2u, copepodids below 28 - 8u, u
+# the louse's random tolerance) and up towards light; eggs rise / sink / float with their buoyancy relative to the
+# water (Stokes or Dallavalle regime by egg size); shrimp larvae swim towards a stage- and daytime-dependent preferred
+# depth; mine particles sink and follow the vertical current.  The variance clause of the property speaks about the
+# displacement ADDED BY THE MIXING of one step, for every interior particle - whatever it is doing otherwise.  The
+# experiments above observed one behavioural state per module only (oceanic water of salinity 35, copepodids, one egg
+# buoyancy, shrimp that do not swim).  Here: clouds of interior particles in several water masses side by side (and
+# haline stratification), all behavioural states at once; per group of particles whose deterministic displacement is
+# the SAME by the module's documentation (so that the sample variance, which is free of the mean, needs no model of
+# the velocity) the sample variance of the displacement of one update against 2*K*dt, exact chi-square bound (the
+# increments are normal), same Bonferroni budget.  Groups are formed from the inputs by the harness's own water
+# functions (never by calling the module); groups smaller than 2000 are skipped (tagged).
+# =====================================================================================================================
+
+LICE_SWIM = 5e-4          # swimming speed of the lice [m/s] (module documentation), used for the interior margin only
+MIN_GROUP = 2000
+
+
+class WaterMasses:
+    """water masses side by side along x (band = floor(x / 10), `nb` bands), each with its own surface temperature /
+    salinity, plus common vertical gradients: temp = T[band] + tz*z, salt = S[band] + sz*z; (lon, lat) the same
+    for all particles; depth 500 m everywhere"""
+
+    def __init__(self, T, S, tz=0.0, sz=0.0, lon=5.0, lat=60.0):
+        self.T, self.S, self.tz, self.sz, self.lon, self.lat = np.array(T, float), np.array(S, float), tz, sz, lon, lat
+
+    def band(self, x):
+        return np.clip(np.floor(np.asarray(x, float) / 10.0).astype(int), 0, len(self.S) - 1)
+
+    def temp(self, x, z):
+        return self.T[self.band(x)] + self.tz * np.asarray(z, float)
+
+    def salt(self, x, z):
+        return self.S[self.band(x)] + self.sz * np.asarray(z, float)
+
+    def field(self, x, y, z, name):
+        if name == "temp":
+            return self.temp(x, z)
+        if name == "salt":
+            return self.salt(x, z)
+        raise KeyError(name)
+
+    def lonlat(self, x, y, method="bilinear"):
+        x = np.asarray(x, float)
+        return np.zeros_like(x) + self.lon, np.zeros_like(x) + self.lat
+
+    def grid(self):
+        g = Obj(sample_depth=lambda x, y: np.zeros_like(np.asarray(x, float)) + 500.0, lonlat=self.lonlat, xy2ll=self.lonlat)
+        g.grid = g
+        return g
+
+    def forcing(self):
+        return Obj(field=self.field, forcing=Obj(wvel=lambda x, y, z, *a, **k: np.zeros_like(np.asarray(z, float))))
+
+    def describe(self):
+        return dict(surface_temp_by_band=self.T.tolist(), surface_salt_by_band=self.S.tolist(), dtemp_dz=self.tz, dsalt_dz=self.sz,
+                    band_width=10.0, lon=self.lon, lat=self.lat)
+
+
+def behaviour_state(carrier, dt, timestamp, arrays):
+    """real LADiM State or the stub state of the repository's unit tests"""
+    arrays = {k: np.array(v) for k, v in arrays.items()}
+    n = len(arrays["X"])
+    if carrier == "real":
+        return real_state(dt=dt, timestamp=timestamp, **arrays)
+    return NumState(pid=np.arange(n), alive=np.ones(n, bool), dt=dt, timestep=0, timestamp=timestamp, **arrays)
+
+
+# (dt, K): standard deviation sqrt(2*K*dt) of one step <= 0.78 m, so that the 20 m lice column has an interior
+LICE_STEPS = [(60.0, 1e-3), (120.0, 1e-3), (300.0, 1e-3), (600.0, 3e-4), (600.0, 1e-4), (60.0, 5e-3), (3600.0, 5e-5),
+              (60, 1e-3), (600, 2e-4), (100.0, 2e-3)]
+LICE_TIMES = ["2022-01-01T00:00:00", "2022-01-15T23:00:00", "2020-06-15T12:00:00", "2020-03-15T12:00:00", "2020-09-15T09:00:00",
+              "2020-03-15T06:00:00", "2020-09-15T18:00:00", "2020-12-15T12:00:00", "2020-06-15T00:00:00", "2020-03-15T05:00:00"]
+
+
+def lice_behaviour_experiment(ctx, rep):
+    """salmon lice: nauplii and copepodids in oceanic / brackish / river water (side by side, optionally with a fresh
+    surface layer), by night / day / twilight.  Group = (stage, salinity class, avoids the water or not, lit or not):
+      salinity class 'below' = fresher than the lowest tolerance of the stage (30 nauplii, 20 copepodids): every louse
+        avoids; 'above' = at least the highest tolerance (32 / 28): none avoids; 'band' = in between: the louse avoids
+        iff salinity < its tolerance 32 - 2u resp. 28 - 8u, u = the uniform draw the module requests for it (recorded);
+      lit = light at the louse's depth surface_light*exp(-0.2 z) >= 0.01 (margin: >= 0.0125 lit, <= 0.008 dark,
+        in between not used).
+    Within a group the documented deterministic velocity is one number (+swim, -swim or 0)."""
+    rng = ctx.rng
+    site = "ladim_plugins/salmon_lice/ibm.py"
+    M = ibmrun.mod("salmon_lice")
+    N = ctx.n(60000, 240000)
+    dt, K = LICE_STEPS[rng.randrange(len(LICE_STEPS))] if rep else (600.0, 3e-4)
+    sigma = math.sqrt(2 * K * dt)
+    steps = rng.choice([1, 1, 2])
+    # interior: every update moves a louse by at most swim*dt + 9.5 sigma (a normal draw beyond 9.5: < 3e-21 per draw)
+    half = 10.0 - steps * (9.5 * sigma + LICE_SWIM * dt) - 0.01
+    if half < 0.25:
+        steps = 1
+        half = 10.0 - (9.5 * sigma + LICE_SWIM * dt) - 0.01
+    assert half > 0.25, (dt, K)
+    pool = [3.0, 12.0, 19.0, 22.0, 25.0, 27.0, 29.0, 30.5, 31.5, 33.0, 35.0]
+    if rep == 0:
+        S = [12.0, 25.0, 31.0, 35.0]                       # river plume, brackish (both bands), oceanic
+    else:
+        S = [rng.choice(pool) for _ in range(4)]
+    sz = rng.choice([0.0, 0.0, 0.2, 0.5]) if rep else 0.0  # fresh layer on top: salinity increases downwards
+    water = WaterMasses(T=[rng.choice([4.0, 8.0, 14.0]) for _ in range(4)], S=S, tz=rng.choice([0.0, -0.1]), sz=sz,
+                        lon=rng.choice([5.0, 20.0]), lat=rng.choice([60.0, 70.0]))
+    ts = np.datetime64(LICE_TIMES[rng.randrange(len(LICE_TIMES))] if rep else LICE_TIMES[0])
+    conf = dict(vertical_mixing=K)
+    if K == 1e-3 and rng.random() < 0.5:
+        conf = dict()                                       # the module's default coefficient
+    carrier = rng.choice(["real", "stub"])
+    rs = np.random.RandomState(ctx.sub_seed())
+    x = rs.uniform(1.0, 39.0, N); y = rs.uniform(2.0, 18.0, N)
+    z = 10.0 + rs.uniform(-half, half, N)
+    naup = rs.uniform(size=N) < 0.5
+    # degree-days: nauplii 0..35, copepodids 45..160; one update adds temp*dt/86400 <= 0.6: nobody changes stage or dies
+    age = np.where(naup, rs.uniform(0.0, 35.0, N), rs.uniform(45.0, 160.0, N))
+    st = behaviour_state(carrier, dt, ts, dict(X=x, Y=y, Z=z, age=age, days=rs.uniform(0, 20, N), super=np.full(N, 1000.0),
+                                                temp=np.zeros(N), salt=np.zeros(N)))
+    ibm = M.IBM(dict(dt=dt, ibm=conf))
+    grid, forcing = water.grid(), water.forcing()
+    with RngRecorder(ctx.sub_seed()) as rec:
+        for _ in range(steps):
+            del rec.log[:]
+            z0 = np.array(st["Z"], float)
+            ibm.update_ibm(grid, st, forcing)
+        sched = rec.schedule()
+        u = rec.log[0][3].copy() if (len(rec.log) and rec.log[0][0] == "rand" and rec.log[0][2] == (N,)) else None
+    z1 = np.array(st["Z"], float)
+    disp = z1 - z0
+    salt0 = water.salt(x, z0)
+    light0 = np.asarray(ibmrun.lice_surface_light()(ts, *water.lonlat(x, y)), float)
+    Eb = light0 * np.exp(-0.2 * z0)
+    lit = np.where(Eb >= 0.0125, 1, np.where(Eb <= 0.008, 0, -1))
+    lo_tol = np.where(naup, 30.0, 20.0); hi_tol = np.where(naup, 32.0, 28.0)
+    cls = np.where(salt0 < lo_tol - 1e-9, 0, np.where(salt0 >= hi_tol + 1e-9, 2, 1))          # below / band / above
+    if u is not None:
+        tol = np.where(naup, 32.0 - 2.0 * u, 28.0 - 8.0 * u)
+        avoid = np.where(np.abs(salt0 - tol) < 1e-9, -1, (salt0 < tol).astype(int))
+    else:
+        avoid = np.where(cls == 0, 1, np.where(cls == 2, 0, -1))                               # band: not decidable
+    params = dict(module="salmon_lice", dt=dt, K=K, ibm=dict(conf), N=N, updates=steps, state=carrier, timestamp=str(ts),
+                  water=water.describe(), depth_range=[10.0 - half, 10.0 + half], surface_light=float(light0[0]),
+                  draw_schedule=repr(sched))
+    ctx.case(key=("behaviour", "salmon_lice", dt, K, repr(sorted(conf.items())), repr(water.describe()), str(ts), steps, carrier),
+             nontrivial=True, sample=params if rep == 0 else None)
+    ctx.branch("behaviour.salmon_lice.state_%s" % carrier)
+    ctx.branch("behaviour.salmon_lice.water_%s" % ("stratified" if sz else "uniform_in_depth"))
+    ctx.branch("behaviour.salmon_lice.updates_%d" % steps)
+    ctx.branch("behaviour.salmon_lice.mixing_%s" % ("given" if conf else "default"))
+    # generator sanity (not an oracle): the cloud stayed inside the open column (no reflection, no cap)
+    interior = (z1 > 0.005) & (z1 < 19.995) & (z1 != 19.0)
+    tested = 0
+    for s_name, s_sel in (("nauplius", naup), ("copepodid", ~naup)):
+        for c, c_name in enumerate(("below_tolerance", "tolerance_band", "above_tolerance")):
+            for a, a_name in ((1, "avoiding"), (0, "not_avoiding")):
+                if (c == 0 and a == 0) or (c == 2 and a == 1):
+                    continue
+                for l, l_name in ((1, "lit"), (0, "dark")):
+                    sel = s_sel & (cls == c) & (avoid == a) & (lit == l) & interior
+                    n = int(sel.sum())
+                    if n < MIN_GROUP:
+                        continue
+                    tested += 1
+                    ctx.branch("behaviour.salmon_lice.%s.%s.%s.%s" % (s_name, c_name, a_name, l_name))
+                    chi2_variance_ok(ctx, "salmon_lice_behaviour", disp[sel], 2 * K * dt, site,
+                                     dict(params, group="%s, salinity %s (%.2f..%.2f), %s the water, %s" % (
+                                         s_name, c_name.replace("_", " "), float(salt0[sel].min()), float(salt0[sel].max()), a_name.replace("_", " "), l_name),
+                                          example=dict(X=float(x[sel][0]), Z_before=float(z0[sel][0]), Z_after=float(z1[sel][0]),
+                                                       age=float(age[sel][0]), salt=float(salt0[sel][0]))))
+    if not tested:
+        ctx.branch("behaviour.salmon_lice.no_group_large_enough")
+
+
+def egg_behaviour_experiment(ctx, rep):
+    """eggs lighter than / heavier than / as dense as the water of their water mass (egg_buoy = the salinity of neutral
+    buoyancy, given relative to the local salinity), small and large eggs (Stokes / Dallavalle regime); water masses of
+    different temperature and salinity side by side, uniform in depth, so that all eggs of a (water mass, buoyancy)
+    group have the same terminal velocity.  Column [0, 200 m]; eggs start round 100 m."""
+    rng = ctx.rng
+    site = "ladim_plugins/egg/ibm.py"
+    M = ibmrun.mod("egg")
+    dt, K = rng.choice([(60.0, 1e-3), (60.0, 1e-2), (600.0, 1e-4), (600.0, 1e-3), (600.0, 5e-3), (3600.0, 1e-4), (3600.0, 1e-3), (600, 1e-2)])
+    sigma = math.sqrt(2 * K * dt)                           # <= 3.5 m
+    diam = rng.choice([0.0005, 0.0011, 0.0014, 0.003])
+    nb = 3
+    water = WaterMasses(T=[rng.choice([2.0, 6.0, 10.0, 14.0]) for _ in range(nb)], S=[rng.choice([30.0, 32.0, 34.0, 35.0]) for _ in range(nb)])
+    deltas = [0.0] + rng.sample([-3.0, -1.0, -0.2, 0.2, 1.0, 3.0], 3 if ctx.tier != "thorough" else 5)
+    per = ctx.n(3000, 10000)
+    # terminal velocity: density difference <= 3 salinity units (~2.4 kg/m3), egg <= 3 mm: |W| < 0.005 m/s in both
+    # regimes (Stokes: d^2 g drho / (18 mu) with mu >= 1.2e-3: 0.0033 for 1.4 mm, which is the largest Stokes egg here;
+    # Dallavalle 3 mm: 0.0038); bound used for the interior margin: 0.01 m/s (checked after the run)
+    WMAX = 0.01
+    half = 100.0 - 9.5 * sigma - WMAX * dt - 1.0
+    assert half > 10.0, (dt, K)
+    rs = np.random.RandomState(ctx.sub_seed())
+    groups = [(b, d) for b in range(nb) for d in deltas]
+    gid = np.repeat(np.arange(len(groups)), per)
+    N = len(gid)
+    band = np.array([g[0] for g in groups])[gid]; delta = np.array([g[1] for g in groups])[gid]
+    order = rs.permutation(N)
+    gid, band, delta = gid[order], band[order], delta[order]
+    x = band * 10.0 + rs.uniform(1.0, 9.0, N); y = rs.uniform(2.0, 18.0, N)
+    z0 = 100.0 + rs.uniform(-half, half, N)
+    buoy = water.S[band] + delta
+    carrier = rng.choice(["real", "stub"])
+    st = behaviour_state(carrier, dt, np.datetime64("2020-03-01T00:00:00"),
+                         dict(X=x, Y=y, Z=z0.copy(), age=rs.uniform(0, 50, N), egg_buoy=buoy, temp=np.zeros(N), salt=np.zeros(N)))
+    ibm = M.IBM(dict(dt=dt, ibm=dict(vertical_mixing=K, egg_diam=diam)))
+    with RngRecorder(ctx.sub_seed()) as rec:
+        ibm.update_ibm(water.grid(), st, water.forcing())
+        del rec.log[:]
+    z1 = np.array(st["Z"], float)
+    disp = z1 - z0
+    params = dict(module="egg", dt=dt, K=K, egg_diam=diam, N=N, state=carrier, water=water.describe(), depth_range=[100.0 - half, 100.0 + half])
+    ctx.case(key=("behaviour", "egg", dt, K, diam, repr(water.describe()), tuple(deltas), carrier), nontrivial=True, sample=params if rep == 0 else None)
+    ctx.branch("behaviour.egg.state_%s" % carrier)
+    ctx.branch("behaviour.egg.diameter_%g" % diam)
+    for g, (b, d) in enumerate(groups):
+        sel = gid == g
+        mean_w = float(disp[sel].mean()) / dt
+        assert abs(mean_w) < 0.8 * WMAX, ("generator sanity: terminal velocity larger than the margin assumes", mean_w, diam, d)
+        ctx.branch("behaviour.egg.%s" % ("neutral" if d == 0 else ("heavier_sinking" if d > 0 else "lighter_rising")))
+        chi2_variance_ok(ctx, "egg_behaviour", disp[sel], 2 * K * dt, site,
+                         dict(params, group="water mass %d (temp %g, salt %g), egg_buoy %g (%+g): mean velocity %.3g m/s" % (
+                             b, water.T[b], water.S[b], water.S[b] + d, d, mean_w)))
+
+
+def shrimp_behaviour_experiment(ctx, rep):
+    """shrimp larvae that SWIM (vertical_speed > 0) towards their preferred depth, day or night, every pelagic stage with
+    its own mixing coefficient and speed: larvae far above their preferred range (swim down the full dt*speed) and far
+    below it (swim up), 'far' = further than dt*speed + 9.5 standard deviations from BOTH the day and the night range of
+    their stage, so that the swimming displacement is the same number for the whole (stage, side) group whatever the
+    time of day and the depth quantile.  Quantiles given at release or left 0 (the module draws them).  Larvae next to
+    their preferred depth (where the module stops them there) are not part of these groups."""
+    rng = ctx.rng
+    site = "ladim_plugins/shrimp/ibm.py"
+    dt = rng.choice([60.0, 600.0, 1800.0, 600])
+    K0 = rng.choice([1e-4, 5e-4, 1e-3])
+    fac = [1.0, 2.0, 4.0, 8.0, 16.0]; rng.shuffle(fac)
+    vm = [K0 * f for f in fac]
+    vs = [rng.choice([1e-3, 1e-2, 0.03, 0.0]) for _ in range(5)]
+    if all(v == 0 for v in vs) or rep == 0:
+        vs[rng.randrange(5)] = 1e-2
+    reach = [9.5 * math.sqrt(2 * vm[k] * dt) + vs[k] * dt + 1.0 for k in range(5)]
+    top = 2 * max(reach) + 10.0                              # the shallowest preferred depth: room above it for the 'above' groups
+    mind_d = [top + rng.choice([0.0, 20.0, 60.0]) for _ in range(5)]; maxd_d = [m + rng.choice([0.0, 10.0, 50.0]) for m in mind_d]
+    mind_n = [top + rng.choice([0.0, 5.0, 30.0]) for _ in range(5)]; maxd_n = [m + rng.choice([0.0, 5.0, 30.0]) for m in mind_n]
+    per = ctx.n(2500, 8000)
+    rs = np.random.RandomState(ctx.sub_seed())
+    k = np.repeat(np.arange(5), 2 * per); side = np.tile(np.repeat([0, 1], per), 5)       # 0 above (shallower), 1 below (deeper)
+    N = len(k)
+    order = rs.permutation(N); k, side = k[order], side[order]
+    # stage 0 = "not initialised" (the module makes it 1); fractional parts <= 0.9: growth of one update (< 0.01) does not
+    # carry a larva into the next stage
+    stage = (k + 1) + rs.choice([0.0, 0.3, 0.75, 0.9], size=N)
+    stage = np.where((k == 0) & (rs.uniform(size=N) < 0.3), 0.0, stage)
+    rk = np.array(reach)[k]
+    shallow = np.minimum(np.array(mind_d), np.array(mind_n))[k]; deep = np.maximum(np.array(maxd_d), np.array(maxd_n))[k]
+    za = 9.5 * np.sqrt(2 * np.array(vm)[k] * dt) + 0.5       # surface margin (the reflecting surface is a boundary)
+    zb = shallow - rk                                        # the whole range of preferred depths is out of reach
+    assert (zb - za).min() > 5.0
+    z_above = za + rs.uniform(0.0, 1.0, N) * (zb - za)
+    z_below = deep + rk + rs.uniform(0.0, 50.0, N)
+    z0 = np.where(side == 0, z_above, z_below)
+    q = np.where(rs.uniform(size=N) < 0.4, 0.0, rs.uniform(0.001, 1.0, N))
+    month, hour = rng.choice([1, 3, 6, 9, 12]), rng.choice([0, 3, 6, 9, 12, 15, 18, 21])
+    ts = np.datetime64("2020-%02d-15T%02d:00:00" % (month, hour))
+    case = dict(kind="shrimp", env=LinEnv(h0=5000.0, t0=rng.choice([2.0, 5.0, 7.0, 12.0]), tz=0.0, s0=34.5, sz=0.0, lon0=rng.choice([5.0, 20.0]),
+                                          lat0=rng.choice([60.0, 70.0])),
+                dt=dt, ts=ts, vm=vm, vs=vs, mind_d=mind_d, maxd_d=maxd_d, mind_n=mind_n, maxd_n=maxd_n,
+                x=rs.uniform(2.0, 18.0, N), y=rs.uniform(2.0, 18.0, N), z=z0.copy(), stage=stage, q=q, age=rs.uniform(0, 50, N),
+                int_dt=isinstance(dt, int))
+    res = ibmrun.shrimp_run(case, ctx.sub_seed(), None, None)
+    z1 = np.array(res["after"]["z"], float)
+    disp = z1 - z0
+    params = dict(module="shrimp", dt=dt, vertical_mixing=vm, vertical_speed=vs, mindepth_day=mind_d, maxdepth_day=maxd_d, mindepth_night=mind_n,
+                  maxdepth_night=maxd_n, timestamp=str(ts), N=N, temp=case["env"].t0)
+    ctx.case(key=("behaviour", "shrimp", dt, tuple(vm), tuple(vs), tuple(mind_d), tuple(maxd_d), tuple(mind_n), tuple(maxd_n), str(ts)),
+             nontrivial=True, sample=params if rep == 0 else None)
+    for kk in range(5):
+        for sd, sname in ((0, "above_preferred_swims_down"), (1, "below_preferred_swims_up")):
+            sel = (k == kk) & (side == sd)
+            if vm[kk] == 0 or int(sel.sum()) < MIN_GROUP:
+                continue
+            ctx.branch("behaviour.shrimp.%s.%s" % (sname, "swimming" if vs[kk] > 0 else "speed_zero"))
+            chi2_variance_ok(ctx, "shrimp_behaviour", disp[sel], 2 * vm[kk] * dt, site,
+                             dict(params, K=vm[kk], group="stage %d larvae %s (speed %g m/s, depths %.1f..%.1f m; mean displacement %.3f m)" % (
+                                 kk + 1, sname.replace("_", " "), vs[kk], float(z0[sel].min()), float(z0[sel].max()), float(disp[sel].mean()))))
+
+
+def mine_advection_experiment(ctx, rep):
+    """mine particles with vertical_advection on in a vertical current (constant upwelling / downwelling w): the
+    deterministic displacement dt*(sink_vel + w) is removed per particle (sink_vel is an input) / by the sample mean
+    (w); statuses 1 and 2, with / without the variable `active`"""
+    rng = ctx.rng
+    Mm = ibmrun.mod("mine")
+    N = ctx.n(20000, 100000)
+    dt = rng.choice([60.0, 600.0]); K = rng.choice([1e-4, 1e-3, 1e-2]); sigma = math.sqrt(2 * K * dt)
+    w = rng.choice([1e-3, -1e-3, 1e-4, -1e-4, 5e-3])
+    H = 5000.0
+    has_active = rng.random() < 0.7
+    carrier = rng.choice(["real", "stub"])
+    conf = dict(lifespan=1e12, vertical_mixing=K, vertical_advection=True, land_collision=rng.choice(["freeze", "reposition"]))
+    if rng.random() < 0.5:
+        conf["taucrit"] = rng.choice([1000, 5000.0])
+    rs = np.random.RandomState(ctx.sub_seed())
+    arr = dict(X=rs.uniform(2, 18, N), Y=rs.uniform(2, 18, N), Z=rs.uniform(1000.0, 4000.0, N), age=np.zeros(N),
+               sink_vel=rs.choice([1e-7, 1e-6, 1e-5, 1e-3], size=N))
+    flag = rs.choice([1, 2], size=N)
+    if has_active:
+        arr["active"] = np.ones(N, bool) if carrier == "real" else flag.astype(float)
+    cloud = Cloud(carrier, dt, arr)
+    g = Obj(sample_depth=lambda x, y: np.zeros(len(x)) + H, lonlat=lambda x, y: (np.asarray(x, float) + 0.0, np.asarray(y, float) + 0.0))
+    f = Obj(velocity=lambda x, y, z, tstep=0: (np.zeros(len(x)), np.zeros(len(x))),
+            forcing=Obj(wvel=lambda x, y, z, *a, **k: np.zeros(len(x)) + w))
+    ibm = Mm.IBM(dict(dt=dt, ibm=conf, output_instance=[], nc_attributes={}))
+    z0 = cloud.get("Z").astype(float); sink = cloud.get("sink_vel").astype(float)
+    cloud.st.timestep = 1
+    with RngRecorder(ctx.sub_seed()) as rec:
+        ibm.update_ibm(g, cloud.st, f)
+        del rec.log[:]
+    disp = cloud.get("Z").astype(float) - z0 - dt * sink
+    params = dict(module="mine", dt=dt, K=K, ibm=dict(conf), N=N, state=carrier, active_variable=has_active, wvel=w, depth=H)
+    ctx.case(key=("behaviour", "mine", dt, K, w, repr(sorted(conf.items(), key=str)), carrier, has_active), nontrivial=True, sample=params if rep == 0 else None)
+    ctx.branch("behaviour.mine.vertical_current_%s" % ("down" if w > 0 else "up"))
+    groups = [(1, flag == 1), (2, flag == 2)] if (has_active and carrier != "real") else [(1, np.ones(N, bool))]
+    for fl, sel in groups:
+        chi2_variance_ok(ctx, "mine_behaviour", disp[sel], 2 * K * dt, "ladim_plugins/mine/ibm.py",
+                         dict(params, group="status %d, vertical current %g m/s" % (fl, w)))
+
+
+def behaviour_variances(ctx):
+    for rep in range(ctx.n(5, 14)):
+        lice_behaviour_experiment(ctx, rep)
+    for rep in range(ctx.n(3, 6)):
+        egg_behaviour_experiment(ctx, rep)
+    for rep in range(ctx.n(3, 8)):
+        shrimp_behaviour_experiment(ctx, rep)
+    for rep in range(ctx.n(2, 5)):
+        mine_advection_experiment(ctx, rep)
+
+
+
 def ladis_corr(ctx, drv):
     M = ibmrun.mod("sedimentation")
     pend = []
@@ -1439,6 +1801,8 @@ def run(ctx):
     substeps(ctx)
     # several updates of ONE IBM instance with horizontal transport to other water depths in between (last, same reason)
     transport_histories(ctx)
+    # behavioural states of the velocity + mixing modules (water masses, stages, light, buoyancy, swimming): last, same reason
+    behaviour_variances(ctx)
 
 
 def replay(payload):
